@@ -55,6 +55,38 @@ def run_bounded(prop, tier, seed, module=None):
         return dict(crash=True, stderr="unparsable harness output: %s\n%s" % (e, p.stdout[-1000:]))
 
 
+def load_obligation_baseline():
+    try:
+        return json.load(open(os.path.join(HERE, "baseline_obligations.json")))
+    except Exception:
+        return None
+
+
+def norm_obligation(name):
+    import re
+    return re.sub(r"@\d+", "@", re.sub(r"line\d+", "line", name))
+
+
+def changed_functions(baseline, r):
+    """Functions whose source text differs from the recorded unchanged tree, among the function under contract and the
+    accessors executed inline from their real bodies while generating its obligations."""
+    from pyvc import source
+    from pyvc.contracts import REGISTRY
+    out = []
+    cands = [tuple(r["key"])] + [tuple(u) for u in r["used"] if tuple(u) in REGISTRY and REGISTRY[tuple(u)].inline]
+    for f, q in cands:
+        want = baseline["functions"].get("%s::%s" % (f, q))
+        if want is None:
+            continue
+        try:
+            got = source.source_info(f, source.locate(f, q))["sha256"]
+        except Exception:
+            got = None
+        if got != want:
+            out.append("%s::%s" % (f, q))
+    return out
+
+
 def write_replay(prop, n, payload):
     d = os.path.join(HERE, "replays")
     os.makedirs(d, exist_ok=True)
@@ -137,6 +169,7 @@ def main():
     from pyvc.contracts import REGISTRY
     from pyvc import runner, source
     known = load_known()
+    baseline = load_obligation_baseline()
     violations = []      # (text, replay path, suffix)
     undecided = []
     known_lines = []
@@ -249,7 +282,23 @@ def main():
             suffix = "" if (bres and bres["violations"]) else " no-failing-input-found"
             violations.append(("obligation %s refuted by %s" % (o["name"], o["backend"]), path, suffix))
         else:
-            undecided.append("obligation %s: %s (%s)" % (o["name"], o["status"], o["detail"][:200]))
+            # not a counter-model.  An obligation that was discharged on the unchanged tree and is not discharged now, in a
+            # function whose source differs from that tree, is reported; on unchanged source it is solver noise (undecided).
+            key = "%s::%s#%s" % (r["key"][0], r["key"][1], r["case"])
+            was = baseline is not None and norm_obligation(o["name"]) in set(baseline["proved"].get(key, []))
+            chg = changed_functions(baseline, r) if was else []
+            if was and chg and o["backend"] != "not-attempted":
+                nrep[0] += 1
+                path = write_replay(prop, nrep[0], dict(property=prop, kind="obligation", function=list(r["key"]), case=r["case"],
+                                                        obligation=o["name"], solver=o["backend"],
+                                                        verdict="discharged on the unchanged tree (baseline %s), not discharged on this one: %s" % (
+                                                            baseline.get("repo_commit", "?")[:10], o["status"]),
+                                                        changed_source=chg, solver_output=o["detail"], smt2_tail=o["smt2"], line=o["line"]))
+                suffix = "" if (bres and bres["violations"]) else " no-failing-input-found"
+                violations.append(("obligation %s was discharged on the unchanged tree and is not after the change to %s (%s: %s)" % (
+                    o["name"], ", ".join(chg), o["status"], o["detail"][:120]), path, suffix))
+            else:
+                undecided.append("obligation %s: %s (%s)" % (o["name"], o["status"], o["detail"][:200]))
 
     # ------------------------------------------------------------ evidence
     wall = time.time() - t0
